@@ -1,4 +1,5 @@
 (* C15: the statements.  This file contains nothing but the property theorems. *)
+From Maddy Require Auth.NormCorr.
 From Maddy Require Import Lib.Base Auth.Authz Auth.AuthzLemmas.
 Local Open Scope N_scope.
 
@@ -75,3 +76,12 @@ Example C15_example :
   r_reject (check_body cfg idn idn (fun _ => PMiss) u2e split pl idn true [97] [(K_FROM, [97]); (K_FROM, [98])]) = true /\
   r_reject (check_body cfg idn idn (fun _ => PMiss) u2e split pl idn true [97] [(K_FROM, [98]); (K_SENDER, [97])]) = false.
 Proof. vm_compute. repeat split. Qed.
+
+(* the normalisation settings: a function that meets the contract of its setting name (noop: the
+   string itself; casefold: the string lower-cased character by character) gives equal results
+   only for strings the contract identifies - so the comparison in AuthorizeEmailUse cannot take
+   an address that is not the user's for one that is *)
+Theorem C15_normalizer_contract_separates :
+  forall c, NormCorr.agrees c = true -> NormCorr.monitor c = [].
+Proof. exact NormCorr.contract_separates. Qed.
+Print Assumptions C15_normalizer_contract_separates.
